@@ -403,7 +403,7 @@ def run_batch_stream(ctx, res, want):
                 if single is not None and any(single):
                     res.nontrivial.add(hash(("batch", kind, repr(rules), rot)))
                 if batch != single:
-                    res.violation({"signature": f"C01:batch:{kind}", "stream": "batch", "kind": kind, "rules": rules, "rotation": rot,
+                    res.violation({"signature": f"C01:batch:{kind}", "stream": "batch", "ekind": kind, "rules": rules, "rotation": rot,
                                    "what": f"effect {kind}, policy {rules}: batch_enforce({[repr(r[0]) for r in reqs]}) = {batch}; the requests decided one by one give {single}",
                                    "expected": single, "observed": batch})
                     break
@@ -411,7 +411,7 @@ def run_batch_stream(ctx, res, want):
 
 def replay_batch(obj):
     casbin = common.use_repo()
-    m = casbin.Enforcer.new_model(text=model_text(obj["kind"], True, False))
+    m = casbin.Enforcer.new_model(text=model_text(obj.get("ekind") or obj["kind"], True, False))
     e = casbin.Enforcer(m)
     e.add_function("f", synth_f)
     e.model.model["p"]["p"].policy = [list(r) for r in obj["rules"]]
@@ -450,6 +450,18 @@ def _flag_env_run(kind, script):
                     e.enable_enforce(False)
                 elif op == "enable":
                     e.enable_enforce(True)
+                elif op.startswith("set_model:"):
+                    # another model (a different policy-effect expression) takes the place of the first one
+                    open(mp, "w").write(model_text(op.split(":")[1], True, False))
+                    e.set_model(casbin.Enforcer.new_model(mp))
+                    e.add_function("f", synth_f)
+                    e.load_policy()
+                elif op.startswith("load_model:"):
+                    # the model file has been rewritten with a different policy-effect expression and is reloaded
+                    open(mp, "w").write(model_text(op.split(":")[1], True, False))
+                    e.load_model()
+                    e.add_function("f", synth_f)
+                    e.load_policy()
                 elif op == "load_model":
                     e.load_model()
                     e.add_function("f", synth_f)
@@ -507,8 +519,13 @@ def run_flag_env_stream(ctx, res, want):
     rng = ctx["rng"]
     scripts = [["enable", "disable", op, "enable"] for op in FLAG_ENV_OPS]
     scripts += [["enable", "disable", a, b, "enable"] for a in FLAG_ENV_OPS[:5] for b in FLAG_ENV_OPS[:5]]
-    for kind in [k for k in KINDS if k != "sp"]:  # subject priority needs a role definition to LOAD a policy through an adapter (C07's subject)
-        for script in scripts if ctx["deep"] else rng.sample(scripts, 12) + scripts[:3]:
+    kinds = [k for k in KINDS if k != "sp"]  # subject priority needs a role definition to LOAD a policy through an adapter (C07's subject)
+    bases = {k: _flag_env_run(k, ["enable"])[0][1] for k in kinds}
+    for kind in kinds:
+        # the model replaced / reloaded with ANOTHER effect expression: from then on the new expression decides
+        swaps = [["enable", f"{how}:{k2}"] for how in ("set_model", "load_model") for k2 in kinds if k2 != kind]
+        swaps += [["enable", "disable", f"set_model:{k2}", "enable"] for k2 in kinds if k2 != kind][:2]
+        for script in (scripts if ctx["deep"] else rng.sample(scripts, 12) + scripts[:3]) + swaps:
             outs = _flag_env_run(kind, script)
             base = outs[0][1]
             disabled = False
@@ -517,19 +534,21 @@ def run_flag_env_stream(ctx, res, want):
                     disabled = True
                 elif op == "enable":
                     disabled = False
+                elif ":" in op:
+                    base = bases[op.split(":")[1]]
                 res.evaluations += 1
                 res.count("stream:flag-env:" + ("disabled" if disabled else "enabled"))
                 res.nontrivial.add(hash(("flag-env", kind, tuple(script[: i + 1]))))
                 exp = ["T"] * len(decs) if disabled else base
                 if ret != "ok" or decs != exp:
-                    res.violation({"signature": f"C01:flag-env:{'disabled' if disabled else 'enabled'}:{op}", "stream": "flag-env", "kind": kind, "script": script[: i + 1],
-                                   "what": f"effect {kind}: after {script[: i + 1]} (last call: {ret}) the enforcer is {'DISABLED and must allow everything' if disabled else 'enabled and must decide as before'}: decisions {decs}, expected {exp}",
+                    res.violation({"signature": f"C01:flag-env:{'disabled' if disabled else 'enabled'}:{op.split(':')[0]}", "stream": "flag-env", "ekind": kind, "script": script[: i + 1],
+                                   "what": f"effect {kind}: after {script[: i + 1]} (last call: {ret}) the enforcer is {'DISABLED and must allow everything' if disabled else 'enabled and must decide as its current model says'}: decisions {decs}, expected {exp}",
                                    "expected": exp, "observed": decs})
                     break
 
 
 def replay_flag_env(obj):
-    outs = _flag_env_run(obj["kind"], obj["script"])
+    outs = _flag_env_run(obj.get("ekind") or obj["kind"], obj["script"])
     return outs[-1][0] != "ok" or outs[-1][1] != obj["expected"]
 
 
